@@ -99,8 +99,13 @@ claim("C05", "other",
       "(except ItemDecRef inside freeNodeUnlocked, by design); rootAddRef reads and bumps the root under rootLock once; collNames is sorted.",
       A_COMMON + " Linearizability, lost updates and the benign-ness of the unsynchronised lazy caches are NOT decided (family limit).")
 
+claim("C06", "proof",
+      "Proved over a ghost visit log (the visitor contract appends key position, abstract item, depth and has-value flag for each call; returning false sets a stop flag): visitNodes, for both choice functions, delivers only items of the tree in the requested range "
+      "(ascend: key >= target; descend: key < target), each with the item stored under that key, its true depth (depth + depthIn) and a value when requested, in strictly ascending/descending order, and -- unless a visitor call returned false or an error occurred -- every key of the range (existential witness in the log); "
+      "a false return stops the visit (no further visitor call can follow: the stop flag is a postcondition). VisitItemsAscendEx/DescendEx/Ascend/Descend carry the same clauses from the collection's current root; the order-checking wrapper and the depth-dropping adapters are verified against the visitor contract they are handed to visitNodes under; newIterator carries target and value mode to the producer.",
+      A_COMMON + A_TREE + " The iterators' producer/consumer goroutines are outside the subset (only newIterator is under contract); the link 'a closure verified against clauses X is used where the functype contract X is assumed' is by construction of the contract file, not checked by the engine; visitors are neutral (A9: they only write the ghost log).")
+
 for pid, why in {
-    "C06": "visitNodes / range visits not under contract yet in this round",
     "C11": "CopyTo not under contract yet in this round",
     "C16": "Len and the block visits not under contract yet in this round",
     "C18": "iterator (goroutine + channels) is outside the verifier's subset; the sequential obligations (pins released, no lock across callbacks) are not claimed yet",
